@@ -414,7 +414,8 @@ class PreTranslator(ASTTranslator):
         if node.lower is None and node.upper is None and node.step is None:
             node.external = node.constant = True
     def postStarred(translator, node):
-        node.external = True
+        # *expr is external only if expr is (a lambda or a query variable inside must not be evaluated in the caller's scope)
+        node.external = bool(node.value.external)
     def postConstant(translator, node):
         node.external = node.constant = True
     def postNum(translator, node):  # Python <= 3.7
